@@ -659,7 +659,7 @@ pub fn generate(out: &mut Out, rng: &mut Rng, thorough: bool, which: &str) {
             let np = reg.pkgs.keys().max().copied().unwrap_or(0) as usize + 2;
             for (choose, prio) in strategies(np, rng, true) { run_and_emit(out, &reg, root, &choose, &prio, &[], false); }
         }
-        let ndeep = if thorough { 60000 / div } else { 2500 };
+        let ndeep = if thorough { 16000 / div } else { 2500 };
         for i in 0..ndeep {
             let reg = if i % 2 == 0 { family_registry(rng) } else { deep_registry(rng) };
             let np = reg.pkgs.keys().max().copied().unwrap_or(0) as usize + 2;
